@@ -17,7 +17,7 @@ DEFAULT = dict(
     p_group_result=0.25, p_flatten=0.4, p_as=0.12, p_named=0.25,
     p_opt=0.25, p_group_param=0.25, p_soft=0.35, p_obj=0.5, p_nest=0.25,
     p_dup=0.06, p_cycle=0.1, p_unknown_dep=0.08, p_foreign_dep=0.12,
-    n_types=8, early_scopes=0.3, p_multi_dec=0.25, p_group_dec=0.3, p_dec_self=0.85, p_one_obj=0.0, p_soft_pattern=0.0,
+    n_types=8, early_scopes=0.3, p_multi_dec=0.25, p_group_dec=0.3, p_dec_self=0.85, p_one_obj=0.0, p_soft_pattern=0.0, p_dec_chain=0.0, p_dup_as=0.03, p_dup_dec_key=0.0,
 )
 
 PROFILES = {
@@ -27,6 +27,8 @@ PROFILES = {
     "bystanders": dict(w_provide=12, w_invoke=4, p_soft=0.6, n_types=10),
     "gaps": dict(p_unknown_dep=0.25, p_foreign_dep=0.3, p_opt=0.5, p_fault=0.08, w_decorate=1, n_types=7, p_export=0.3,
                  early_scopes=0.6),
+    "dfaults": dict(w_decorate=6, p_fault=0.3, p_opt=0.5, n_types=5, p_multi_dec=0.3, p_group_dec=0.3, w_invoke=9,
+                    p_dec_chain=0.3),
     "gfaults": dict(p_group_result=0.7, p_group_param=0.7, p_soft=0.1, p_flatten=0.4, n_types=3, p_fault=0.35,
                     w_decorate=0.5, early_scopes=0.8, w_scope=3, w_invoke=8),
     "cycles": dict(p_cycle=0.45, p_defer=0.5, p_export=0.3, w_provide=12, w_invoke=4, w_decorate=0.5,
@@ -39,7 +41,8 @@ PROFILES = {
     "groups": dict(p_group_result=0.7, p_group_param=0.7, p_soft=0.15, p_flatten=0.5, p_as=0.15, n_types=4,
                    w_decorate=0.6, p_fault=0.05, p_export=0.2),
     "soft": dict(p_group_result=0.6, p_group_param=0.7, p_soft=0.6, n_types=4, w_decorate=0.3, p_fault=0.03, p_one_obj=0.7, p_soft_pattern=0.35),
-    "decor": dict(w_decorate=7, p_multi_dec=0.35, p_group_dec=0.35, n_types=5, p_fault=0.12, w_scope=3),
+    "decor": dict(w_decorate=7, p_multi_dec=0.35, p_group_dec=0.35, n_types=5, p_fault=0.12, w_scope=3, p_dec_chain=0.35,
+                  p_dup_dec_key=0.04),
     "callbacks": dict(p_callback=0.8, p_fault=0.3, w_decorate=3, n_types=6),
     "dry": dict(p_dry=1.0, p_fault=0.0, p_callback=0.2),
 }
@@ -221,6 +224,8 @@ class Gen:
                 l = dict(k="group", ty=k[1], group=k[2], flatten=flat, **{"as": []})
                 if not flat and self.chance(self.p["p_as"]):
                     its = self.r.sample(IFACES, self.r.choice([1, 2, 2]))
+                    if self.chance(self.p.get("p_dup_as", 0.0)):
+                        its = its + [its[0]]        # dig.As(new(I), new(I))
                     l["as"] = its
                     k = ("g", its[-1], k[2])
             else:
@@ -352,7 +357,45 @@ class Gen:
         self.decorate_fn(f, role="inv")
         self.ops.append(dict(op="invoke", scope=s, fn=f["id"]))
 
+    def gen_dec_chain(self):
+        """a key (single or group) decorated at two levels of a three-level chain of
+        scopes, consumed from the deepest scope after the outer levels were used"""
+        while len(self.parents) < 3:
+            self.ops.append(dict(op="scope", parent=len(self.parents) - 1))
+            self.parents.append(len(self.parents) - 1)
+            self.prov.append(dict())
+            self.decorated.append(set())
+        leafs = [x for x in range(len(self.parents)) if len(self.ancestors(x)) >= 3]
+        if not leafs:
+            return
+        leaf = self.r.choice(leafs)
+        chain = self.ancestors(leaf)            # leaf, mid, ..., root
+        grp = self.chance(0.6)
+        if grp:
+            k = self.rand_group_key()
+            for _ in range(self.r.choice([1, 2])):
+                f = self.new_fn(params=[], results=[dict(k="obj", fields=[dict(k="group", ty=k[1], group=k[2], flatten=False, **{"as": []})])], err=False)
+                self.ops.append(dict(op="provide", scope=chain[-1], fn=f["id"], export=False))
+                self.prov[chain[-1]].setdefault(k, f["id"])
+        else:
+            k = self.rand_single_key()
+            f = self.new_fn(params=[], results=[dict(k="obj", fields=[dict(k="single", ty=k[1], name=k[2], **{"as": []})])], err=False)
+            self.ops.append(dict(op="provide", scope=chain[-1], fn=f["id"], export=False))
+            self.prov[chain[-1]].setdefault(k, f["id"])
+        for sc in (chain[-1], chain[1]):
+            res = dict(k="group", ty=k[1], group=k[2], flatten=False, **{"as": []}) if grp else dict(k="single", ty=k[1], name=k[2], **{"as": []})
+            par = [self.leaf_param(k)] if self.chance(0.8) else []
+            f = self.new_fn(params=self.structure_params(par), results=[dict(k="obj", fields=[res])], err=self.chance(0.3))
+            self.decorate_fn(f, role="dec")
+            self.ops.append(dict(op="decorate", scope=sc, fn=f["id"]))
+        order = [chain[-1], leaf] if self.chance(0.6) else [leaf, chain[-1], chain[1]]
+        for sc in order:
+            f = self.new_fn(params=[dict(k="obj", fields=[self.leaf_param(k)])], results=[], err=True)
+            self.ops.append(dict(op="invoke", scope=sc, fn=f["id"]))
+
     def gen_decorate(self):
+        if self.chance(self.p.get("p_dec_chain", 0.0)) and len(self.ops) < 14:
+            return self.gen_dec_chain()
         s = self.r.randrange(len(self.parents))
         nk = 2 if self.chance(self.p["p_multi_dec"]) else 1
         leaves, deckeys = [], []
@@ -376,6 +419,8 @@ class Gen:
                 pleaves.append(self.leaf_param(k, opt=self.chance(0.1), soft=self.chance(0.1)))
         pleaves += self.gen_params(s, self.r.choice([0, 0, 1, 2]), avoid=deckeys)
         self.r.shuffle(pleaves)
+        if leaves and leaves[0]["k"] == "single" and self.chance(self.p.get("p_dup_dec_key", 0.0)):
+            leaves.append(dict(leaves[0]))      # func(A) (A, A): the same key returned twice
         # group results of decorators must be object fields; singles may be positional
         if any(l["k"] == "group" for l in leaves) or any(l.get("name", 0) for l in leaves):
             results = [dict(k="obj", fields=leaves)]
